@@ -621,6 +621,10 @@ func c10Queue(p *Prog, l *Ledger, locks *LockInfo) {
 				}
 				ne++
 				locked := false
+				// "nobody is waiting" may also be decided holding the mutex shared: arrivals hold it exclusively from their
+				// failed attempt to their enqueue, so a reader comes before the attempt or sees the waiter. Only a path
+				// that goes on to acquire for a waiter needs it exclusively.
+				rlocked, acquires, consulted := false, false, false
 				// a helper that every caller enters with an exclusive lock held starts locked
 				for _, ex := range locks.Held(f.Blocks[0].Instrs[0]) {
 					if ex {
@@ -633,8 +637,17 @@ func c10Queue(p *Prog, l *Ledger, locks *LockInfo) {
 						return true
 					}
 					c := p.CallOf(call)
+					if p.callsRoleMethod(c, "Limiter", "Acquire") && !locked {
+						acquires = true
+					}
 					if op, _ := p.lockOpOf(c); op == opLock {
 						locked = true
+						return true
+					} else if op == opRLock {
+						rlocked = true
+						return true
+					} else if op == opRUnlock {
+						rlocked = false
 						return true
 					}
 					if !locked && c.Static != nil && c.Recv != nil && p.InModule(c.Static) {
@@ -642,7 +655,11 @@ func c10Queue(p *Prog, l *Ledger, locks *LockInfo) {
 							if ds, ok := d.Underlying().(*types.Struct); ok {
 								for j := 0; j < ds.NumFields(); j++ {
 									if isListPtr(ds.Field(j).Type()) {
-										ebad = append(ebad, fmt.Sprintf("%s: the backlog is consulted (%s) before the hand-off takes the limiter's mutex", p.At(ins), c.Static.Name()))
+										if rlocked {
+											consulted = true // decided while arrivals are excluded
+										} else {
+											ebad = append(ebad, fmt.Sprintf("%s: the backlog is consulted (%s) before the hand-off takes the limiter's mutex", p.At(ins), c.Static.Name()))
+										}
 									}
 								}
 							}
@@ -650,7 +667,7 @@ func c10Queue(p *Prog, l *Ledger, locks *LockInfo) {
 					}
 					return true
 				})
-				if !locked {
+				if !locked && (!consulted || acquires) {
 					ebad = append(ebad, "a path through the hand-off returns without taking the limiter's mutex: "+joinWitness(p.DescribePath(pa)))
 				}
 				return len(ebad) < 3
